@@ -472,6 +472,29 @@ func c04Update(r *R) {
 		lrp := "result.LeaveRequestPaused(chst)"
 		r.guardedCalls("C04.7", fn, false, "(datatransfer.PauseableTransport).ResumeChannel", 1, "+resultErr==nil", "+result.Accepted", "-"+lrp)
 		r.guardedCalls("C04.7", fn, false, "(datatransfer.PauseableTransport).PauseChannel", 1, "+resultErr==nil", "+result.Accepted", "+"+lrp)
+		// the whole decision: which transport action / message follows from the outcome
+		fin := "chst.Status().InFinalization()"
+		r.effectTable("C04.7", fn, []string{"resultErr==nil", "result.Accepted", lrp, "chst.ResponderPaused()", fin, "response==nil"},
+			map[string]string{"(datatransfer.PauseableTransport).ResumeChannel": "resume", "(datatransfer.PauseableTransport).PauseChannel": "pause",
+				"(datatransfer.Transport).CloseChannel": "close", "(network.DataTransferNetwork).SendMessage": "send"},
+			[]string{"m.dataTransferNetwork.SendMessage("},
+			func(a map[string]bool) []string {
+				accept := a["resultErr==nil"] && a["result.Accepted"]
+				if accept && !a[lrp] && a["chst.ResponderPaused()"] && !a[fin] {
+					return []string{"resume"} // the response travels with the resume
+				}
+				var out []string
+				if !a["response==nil"] {
+					out = append(out, "send")
+				}
+				if !accept {
+					return append(out, "close")
+				}
+				if a[lrp] && !a["chst.ResponderPaused()"] && !a[fin] {
+					out = append(out, "pause")
+				}
+				return out
+			})
 		nRej := 0
 		for _, pt := range r.pathsOf("C04.7", fn) {
 			if pt.End != "return" {
